@@ -173,8 +173,7 @@ func (s *Solver) define(t *Term) {
 		return
 	case OVar:
 		if !s.declared[t.Name] {
-			s.declared[t.Name] = true
-			s.send(fmt.Sprintf("(declare-const %s %s)", t.Name, sortOf(t.W)))
+			s.declareVar(t)
 		}
 		return
 	}
@@ -196,8 +195,7 @@ func (s *Solver) define(t *Term) {
 		}
 		if x.Op == OVar {
 			if !s.declared[x.Name] {
-				s.declared[x.Name] = true
-				s.send(fmt.Sprintf("(declare-const %s %s)", x.Name, sortOf(x.W)))
+				s.declareVar(x)
 			}
 			continue
 		}
@@ -215,6 +213,21 @@ func (s *Solver) define(t *Term) {
 			stack = append(stack, fr{c, false})
 		}
 	}
+}
+
+// declareVar declares a variable. A restricted range is built into the
+// definition (the raw value is clamped), so the interval the executor relies
+// on holds by construction and never depends on a separate assertion.
+func (s *Solver) declareVar(t *Term) {
+	s.declared[t.Name] = true
+	if t.W == 0 || (t.lo == 0 && t.hi == mask(t.W)) {
+		s.send(fmt.Sprintf("(declare-const %s %s)", t.Name, sortOf(t.W)))
+		return
+	}
+	raw := t.Name + "_raw"
+	s.send(fmt.Sprintf("(declare-const %s %s)", raw, sortOf(t.W)))
+	s.send(fmt.Sprintf("(define-fun %s () %s (ite (and (bvule %s %s) (bvule %s %s)) %s %s))", t.Name, sortOf(t.W),
+		bvLit(t.W, t.lo), raw, raw, bvLit(t.W, t.hi), raw, bvLit(t.W, t.lo)))
 }
 
 func (s *Solver) Push() {
